@@ -1,0 +1,70 @@
+//go:build verif
+
+package syntax
+
+import (
+	"sort"
+	"unicode"
+)
+
+// Add-only accessors for the /verif harness (property C16). Nothing here is used by the library.
+
+// VerifCharSetFields exposes the unexported fields of a CharSet (the ranges/categories slices are copies).
+func VerifCharSetFields(c *CharSet) (ranges []SingleRange, cats []Category, sub *CharSet, negate, anything, hasASCII bool, bits [2]uint64) {
+	ranges = append(ranges, c.ranges...)
+	cats = append(cats, c.categories...)
+	if c.ascii != nil {
+		hasASCII = true
+		bits = c.ascii.bits
+	}
+	return ranges, cats, c.sub, c.negate, c.anything, hasASCII, bits
+}
+
+// VerifNewCharSet builds a CharSet from raw fields without any normalisation.
+func VerifNewCharSet(ranges []SingleRange, cats []Category, sub *CharSet, negate, anything bool) *CharSet {
+	c := &CharSet{negate: negate, anything: anything, sub: sub}
+	c.ranges = append(c.ranges, ranges...)
+	c.categories = append(c.categories, cats...)
+	return c
+}
+
+// VerifScanCharSet runs scanCharSet on a pattern that starts with '[' and applies the case
+// conversion of the node constructor (newRegexNodeSet), exactly as scanRegex does for a bracket
+// expression; no tree reduction. rest is the number of pattern runes left after the closing ']'.
+func VerifScanCharSet(pattern string, opts RegexOptions) (cs *CharSet, rest int, err error) {
+	p := parser{options: opts, caps: make(map[int]int)}
+	p.setPattern(pattern)
+	p.reset(opts)
+	p.moveRight(1)
+	cc, err := p.scanCharSet(p.useOptionI(), false)
+	if err != nil {
+		return nil, 0, err
+	}
+	n := newRegexNodeSet(NtSet, p.options, cc)
+	return n.Set, p.charsRight(), nil
+}
+
+func (c *CharSet) VerifCanonicalize()                      { c.canonicalize() }
+func (c *CharSet) VerifAddRange(lo, hi rune)               { c.addRange(lo, hi) }
+func (c *CharSet) VerifAddRanges(rs []SingleRange)         { c.addRanges(rs) }
+func (c *CharSet) VerifAddNegativeRanges(rs []SingleRange) { c.addNegativeRanges(rs) }
+func (c *CharSet) VerifAddSet(s CharSet)                   { c.addSet(s) }
+func (c *CharSet) VerifAddCategories(cats ...Category)     { c.addCategories(cats...) }
+func (c *CharSet) VerifAddLowercase()                      { c.addLowercase() }
+func (c *CharSet) VerifAddCaseEquivalences()               { c.addCaseEquivalences() }
+func (c *CharSet) VerifPrepareASCIIBitmap()                { c.prepareASCIIBitmap() }
+func (c *CharSet) VerifCharInSlow(ch rune) bool            { return c.charInSlow(ch) }
+func (c *CharSet) VerifCharInCategories(ch rune) bool      { return c.charInCategories(ch) }
+
+// VerifCategoryNames lists every name charInCategories can look up, sorted.
+func VerifCategoryNames() []string {
+	out := make([]string, 0, len(unicodeCategories))
+	for k := range unicodeCategories {
+		out = append(out, k)
+	}
+	sort.Strings(out)
+	return out
+}
+
+// VerifCategoryTable returns the range table behind a category name (nil if unknown).
+func VerifCategoryTable(name string) *unicode.RangeTable { return unicodeCategories[name] }
